@@ -51,6 +51,10 @@ fn main() {
     let mut fetch_diff_shown = 0;
     run_cases(|input| {
         let o = run_scenario(&mut worlds, input, with_conn);
+        // left out of the I->S trace: scenarios of (formerly) deviating
+        // behaviour - bad NSEC3 labels, Inject (open deviation), and TTL 0 on
+        // a fetch (nodes expire at once and are legitimately re-fetched per
+        // group, which the machine's cache does not model)
         let dev_scn = input["adv"].as_array().map(|a| a.iter().any(|s| {
             let act = s["act"].as_str().unwrap_or("");
             act.starts_with("BadNsec3Label") || act == "Inject" || (act == "ZeroTtl" && s["t"] != "ANS")
